@@ -49,13 +49,24 @@ def _read_msg(fd, timeout=None):
     return pickle.loads(_read_exact(fd, n, timeout))
 
 
+def _fork_retry():
+    """fork(), patient with a machine that is momentarily out of processes or memory."""
+    import time
+    for attempt in range(200):
+        try:
+            return os.fork()
+        except OSError:
+            time.sleep(0.05 * (attempt + 1))
+    return os.fork()
+
+
 def _zygote_loop(req_r, res_w):
     while True:
         try:
             req = _read_msg(req_r)
         except EOFError:
             os._exit(0)
-        pid = os.fork()
+        pid = _fork_retry()
         if pid == 0:
             try:
                 modname, fname, args = req
